@@ -27,6 +27,20 @@ func (u *upgrade) Reset() {
 	*u = upgrade{}
 }
 
+// Valid reports whether the flags form one of the combinations this protocol uses:
+// a plain call, a heartbeat, or opening, feeding or closing a stream.
+func (u *upgrade) Valid() bool {
+	switch {
+	case u.Heartbeat == heartbeat:
+		return u.NoRequest == noRequest && u.NoResponse == noResponse && u.Stream == 0
+	case u.Stream == openStream || u.Stream == closeStream:
+		return u.NoRequest == noRequest && u.NoResponse == noResponse
+	case u.Stream == streaming:
+		return u.NoRequest != noRequest && u.NoResponse == noResponse
+	}
+	return u.NoRequest != noRequest && u.NoResponse != noResponse
+}
+
 func (u *upgrade) IsZero() bool {
 	return u.NoRequest+u.NoResponse+u.Heartbeat+u.Stream == 0
 }
